@@ -1889,7 +1889,7 @@ class CParser:
         expr = None
         result = self._try_parse_paren_type_name()
         if result is not None:
-            typ, mark, _ = result
+            typ, mark, lparen_tok = result
             # Disambiguate between casts and compound literals:
             #   (int) x   -> cast
             #   (int) {1} -> compound literal
@@ -1899,7 +1899,7 @@ class CParser:
                 self._expect("RBRACE")
                 # A compound literal is a postfix expression and can be
                 # followed by postfix suffixes, e.g. (int[]){1, 2}[0]
-                expr = c_ast.CompoundLiteral(typ, init)
+                expr = c_ast.CompoundLiteral(typ, init, self._tok_coord(lparen_tok))
             else:
                 self._reset(mark)
 
